@@ -6,8 +6,8 @@ CROSSHAIR = ["crosshair/c07_contracts.py"]       # second engine, thorough tier
 EXPLANATION = ("SMT decision over the whole documented integer domain (symbolic n in [0,253^4)) and over all byte "
                "strings of each length up to the bound; no sampling.")
 BOUNDS = {
-    "quick": "encode side: all 253^4 integers (unbounded within the documented range); decode side: every byte string of length 0..6",
-    "thorough": "encode side: all 253^4 integers; decode side: every byte string of length 0..10; two-variable injectivity over the full range",
+    "quick": "encode side: all 253^4 integers (unbounded within the documented range); decode side: every byte string of length 0..6; all of it again after earlier calls (earlier inputs of every length 0..5, an earlier call that failed)",
+    "thorough": "encode side: all 253^4 integers; decode side: every byte string of length 0..10; two-variable injectivity over the full range; after earlier calls as in quick",
 }
 OUTSIDE = "integers outside [0, 253^4); byte strings longer than the bound (bytes past the fourth are shown never to be read for lengths up to the bound)"
 ASSUMPTIONS = ["Python ints modelled as mathematical integers (exact)"]
